@@ -16,32 +16,26 @@ variable {α : Type} [DecidableEq α]
 /-- the managed children after a save are exactly the wanted elements, in order
     (nothing removed survives, nothing added is missing or duplicated, order kept) -/
 theorem sync_managed (managed : α → Bool) (wanted old : List α) (before : Option α) :
-    (syncChildren managed wanted old before).filter (isM managed wanted) = wanted := by
-  unfold syncChildren
-  simp only [List.filter_append]
-  rw [filter_isM_wanted]
-  have h1 : List.filter (isM managed wanted) (List.take (pos managed wanted old before) (kept managed wanted old)) = [] := by
-    rw [List.filter_eq_nil_iff]
-    intro c hc
-    simp [kept_not_isM managed wanted old c (List.mem_of_mem_take hc)]
-  have h2 : List.filter (isM managed wanted) (List.drop (pos managed wanted old before) (kept managed wanted old)) = [] := by
-    rw [List.filter_eq_nil_iff]
-    intro c hc
-    simp [kept_not_isM managed wanted old c (List.mem_of_mem_drop hc)]
-  simp [h1, h2]
+    (syncChildren managed wanted old before).filter (isM managed wanted) = wanted :=
+  Pyc.Sync.sync_managed managed wanted old before
 
 /-- unmanaged children survive, in their relative order -/
 theorem sync_unmanaged (managed : α → Bool) (wanted old : List α) (before : Option α) :
     (syncChildren managed wanted old before).filter (fun c => !isM managed wanted c)
       = old.filter (fun c => !isM managed wanted c) :=
-  kept_sync managed wanted old before
+  Pyc.Sync.sync_unmanaged managed wanted old before
 
 /-- when every child is managed (libraries, <node>, <visual_scene>, <technique_common> of a
     bind_material) the children are replaced wholesale -/
 theorem sync_all (wanted old : List α) (before : Option α) :
-    syncChildren (fun _ => true) wanted old before = wanted := by
-  have : kept (fun _ => true) wanted old = [] := by simp [kept, isM]
-  simp [syncChildren, this]
+    syncChildren (fun _ => true) wanted old before = wanted :=
+  Pyc.Sync.sync_all wanted old before
+
+/-- saving twice is saving once -/
+theorem sync_idem (managed : α → Bool) (wanted old : List α) (before : Option α) :
+    syncChildren managed wanted (syncChildren managed wanted old before) before
+      = syncChildren managed wanted old before :=
+  Pyc.Sync.sync_idem managed wanted old before
 
 /-- a removed object's element does not survive -/
 theorem removed_gone (managed : α → Bool) (wanted old : List α) (before : Option α) (c : α)
@@ -66,51 +60,6 @@ theorem order_kept (managed : α → Bool) (wanted old : List α) (before : Opti
     wanted <:+: syncChildren managed wanted old before := by
   unfold syncChildren
   exact ⟨_, _, rfl⟩
-
-/-- saving twice is saving once -/
-theorem sync_idem (managed : α → Bool) (wanted old : List α) (before : Option α) :
-    syncChildren managed wanted (syncChildren managed wanted old before) before
-      = syncChildren managed wanted old before := by
-  have hk := kept_sync managed wanted old before
-  cases hw : wanted with
-  | nil =>
-    subst hw
-    have hnone : ∀ l : List α, (kept managed [] l).findIdx? (isM managed []) = none := by
-      intro l
-      apply findIdx?_none_of_all_false
-      exact kept_not_isM managed [] l
-    have e1 : syncChildren managed [] old before = kept managed [] old := by
-      simp [syncChildren]
-    rw [e1]
-    have e2 : kept managed [] (kept managed [] old) = kept managed [] old := by
-      have h := hk; rw [e1] at h; exact h
-    simp [syncChildren, e2]
-  | cons w ws =>
-    rw [← hw]
-    have hne : wanted ≠ [] := by rw [hw]; simp
-    generalize hp : pos managed wanted old before = p at *
-    have hnew : syncChildren managed wanted old before
-        = (kept managed wanted old).take p ++ wanted ++ (kept managed wanted old).drop p := by
-      simp [syncChildren, hp]
-    have hfirst : (syncChildren managed wanted old before).findIdx? (isM managed wanted)
-        = some ((kept managed wanted old).take p).length := by
-      rw [hnew, List.append_assoc, List.findIdx?_append, findIdx?_take_kept]
-      have : (wanted ++ (kept managed wanted old).drop p).findIdx? (isM managed wanted) = some 0 := by
-        rw [hw]
-        simp [List.findIdx?_cons, isM]
-      simp [this]
-    have hpos : pos managed wanted (syncChildren managed wanted old before) before
-        = ((kept managed wanted old).take p).length := by
-      simp [pos, hfirst]
-    have hdef : ∀ l : List α, syncChildren managed wanted l before
-        = (kept managed wanted l).take (pos managed wanted l before) ++ wanted
-          ++ (kept managed wanted l).drop (pos managed wanted l before) := fun _ => rfl
-    rw [hdef (syncChildren managed wanted old before), hpos, hk, hnew]
-    simp only [List.length_take]
-    by_cases h : p ≤ (kept managed wanted old).length
-    · simp [Nat.min_eq_left h]
-    · have h' : (kept managed wanted old).length ≤ p := by omega
-      simp [Nat.min_eq_right h', List.take_of_length_le h', List.drop_of_length_le h']
 
 /-- transforms and instances of a `<node>`: the saved children, read back by kind, give the
     current transform list in order (so the reloaded matrix is the product the list implies) -/
